@@ -1,44 +1,70 @@
+import functools
 import re
 
 
 ### Option 1 ###
 
-_rewrite_symbols = {
-    # Valid OSC address symbols with re meaning BEFORE special symbols rewrite.
-    '(': '\(',
-    ')': '\)',
-    '^': '\^',
-    '.': '\.',
-    '$': '\$',
-    '+': '\+',
-    '|': '\|',
-    '\\': '\\\\',
-
-    # OSC special symbols (are invalid or special OSC Address symbols).
-    '{': '(?:',
-    ',': '|',
-    '}': ')',
-    '*': '.*',  # BUG: # lo ignora el * si luego viene ?, [, { o literal, por ejemplo: '/*bc'.matchOSCAddressPattern('/abc') es false y re.match('.bc', 'abc') devuelve match. Está en el párrafo anterior al cuadro en la especificación, dice que cada caracter de pattern debe coincidir con el próximo substring de address Y que todo caracter en address debe ser emparejado con algo de pattern.
-    # '[': '[',  # Same.
-    # '-': '-',  # Same behaviour inside/outside brackets.
-    '[!': '[^',
-    # ']': ']',  # Same.
-    '-]': ']', # Discard '-' before closing bracket.
-    '?': '.'
-}
+def _rewrite_char_set(body):
+    # 'x-y' is a range, any other character (a trailing '-' or a '!' that
+    # is not the first character included) stands for itself.
+    res = []
+    i = 0
+    while i < len(body):
+        if i + 2 < len(body) and body[i + 1] == '-':
+            res.append(re.escape(body[i]) + '-' + re.escape(body[i + 2]))
+            i += 3
+        else:
+            res.append(re.escape(body[i]))
+            i += 1
+    return ''.join(res)
 
 
-_rewrite_pattern = re.compile(
-    '(' + '|'.join(re.escape(x) for x in _rewrite_symbols.keys()) + ')')
-
-
-def _rewrite_func(match):
-    return _rewrite_symbols[match.group(0)]
+@functools.lru_cache(maxsize=512)
+def _rewrite_pattern(pattern):
+    # OSC 1.0: '?', '*', '[...]' and '{...}' match within one part of the
+    # address, i.e. they never match '/'. Raises ValueError or re.error
+    # for ill-formed patterns.
+    res = []
+    i = 0
+    while i < len(pattern):
+        char = pattern[i]
+        i += 1
+        if char == '*':
+            res.append('[^/]*')
+        elif char == '?':
+            res.append('[^/]')
+        elif char == '[':
+            end = pattern.find(']', i)
+            if end < 0:
+                raise ValueError(f"missing ']' in pattern {pattern}")
+            body = pattern[i:end]
+            i = end + 1
+            negate = body.startswith('!')
+            if negate:
+                body = body[1:]
+            if not body:
+                raise ValueError(f"empty '[]' in pattern {pattern}")
+            res.append(
+                ('[^/' if negate else '[') + _rewrite_char_set(body) + ']')
+        elif char == '{':
+            end = pattern.find('}', i)
+            if end < 0:
+                raise ValueError(f"missing '}}' in pattern {pattern}")
+            strings = pattern[i:end].split(',')
+            i = end + 1
+            res.append('(?:' + '|'.join(re.escape(x) for x in strings) + ')')
+        else:
+            res.append(re.escape(char))
+    return re.compile(''.join(res))
 
 
 def osc_rematch_pattern(pattern, address):
-    pattern = re.sub(_rewrite_pattern, _rewrite_func, pattern)
-    return re.match(pattern, address) is not None
+    try:
+        regex = _rewrite_pattern(pattern)
+    except (ValueError, re.error):
+        return False  # Ill-formed patterns match nothing.
+    # The pattern has to match the whole address.
+    return regex.fullmatch(address) is not None
 
 
 ### Option 2 ###
